@@ -374,6 +374,12 @@ func genC14(r *rand.Rand, tier string) []Case {
 				keys = append(keys, []byte{})
 			case j%7 == 3:
 				keys = append(keys, []byte{0x91, 0x8d, byte(j)})
+			case i%5 == 2 && j%3 != 0:
+				// binary keys of 8 and more bytes across the whole range of the leading byte (ids, hashes)
+				k := make([]byte, 8+j%5)
+				r.Read(k)
+				k[0] = []byte{0x00, 0x01, 0x7f, 0x80, 0xfe, 0xff}[j%6]
+				keys = append(keys, k)
 			default:
 				keys = append(keys, []byte(fmt.Sprintf("k%d", j*j%97)))
 			}
